@@ -42,6 +42,10 @@ pub struct World {
 
 static WORLD: Mutex<Option<World>> = Mutex::new(None);
 
+/// Called for every logged event (kind, text), while the world lock is held: the hook must not call back
+/// into `vrt::with`. Used for crash-point snapshots.
+pub static EVENT_HOOK: Mutex<Option<fn(&'static str, &str)>> = Mutex::new(None);
+
 fn fnv(mut h: u64, bytes: &[u8]) -> u64 {
     for b in bytes {
         h ^= *b as u64;
@@ -115,6 +119,11 @@ impl World {
         self.digest = h;
         // schedule digest: kinds only, in order (which seam event happened after which)
         self.sched_digest = fnv(self.sched_digest, kind.as_bytes());
+        if let Ok(h) = EVENT_HOOK.try_lock() {
+            if let Some(f) = *h {
+                f(kind, &text);
+            }
+        }
         if self.keep_events {
             let seq = self.seq;
             self.events.push(Event { seq, t_ns, kind, text });
